@@ -238,11 +238,14 @@ func (t *Tokenizer) tokenizeBuffer(buf []byte, last bool) {
 				if digitMap[b] != numDigit {
 					break
 				}
-				t.num.I = t.num.I*10 + uint64(b-'0')
-				if math.MaxInt64 < t.num.I {
-					t.num.FillBig()
-					break
+				if gen.BigLimit <= t.num.I { // may not fit an int64, AddDigit decides
+					t.num.AddDigit(b)
+					if 0 < len(t.num.BigBuf) {
+						break
+					}
+					continue
 				}
+				t.num.I = t.num.I*10 + uint64(b-'0')
 			}
 			if digitMap[b] == numDigit {
 				off++
